@@ -33,6 +33,21 @@ PROPS = {
               "single-call easy/stream/block encoders never return BUF_ERROR with out_size == bound(in_size). Non-trivial: input >= 1 byte and the reference ran; distinct = hash(config, recipe, schedule)."),
         assumptions=BASE_ASSUME + ["harness/ref is correct (see level_note); a reference that lacks a filter makes the case inconclusive (counted), never a verdict"],
     ),
+    "C04": dict(
+        engine="fuzz", level="exploration",
+        technique="coverage-guided structured fuzzing (libFuzzer + custom mutator with CRC32 / lzip-footer repair) of all 22 decoding and parsing entry points behind one case decoder; ASan+UBSan+asserts, capped counting allocator, exact-size per-call input/output windows, documented-return-code tables, starvation probe",
+        level_text="Generated-input search seeded with every file of tests/files: hundreds of thousands of byte strings per run x entry point x decoder flags x slicing schedule x memory-limit mode (1, tiny, memusage-1 then raised, huge). Memory safety comes from the sanitizers; the semantic side conditions (documented status codes per function, bounded calls, BUF_ERROR when starved, post-conditions of failed calls, allocator balance) are checked exactly on every call. Sampled, not exhaustive.",
+        level_note="Trusted: the C04 driver (c04_drv.h) is the drv.h protocol with fresh exact-size heap blocks per call; return-code sets are transcribed from api/lzma/*.h. Uninitialised reads are only visible through the allocator's 0xA5 poisoning and UBSan (no MSan/valgrind pass in this tier). Over-reads that need adversarially trained LZMA probabilities (LZMA_IN_REQUIRED-type off-by-n) are out of reach of this generator.",
+        targets=[dict(name="t_c04", quick_runs=400000, quick_workers=8, thorough_runs=6000000, max_len=1208, min_nontrivial_quick=30000, min_nontrivial_thorough=400000)],
+        rule=("case = 8 parameter bytes (entry point, decoder flags incl. unsupported bits, memlimit mode, slicing seed, threads / Check ID / Block version / raw chain / MicroLZMA sizes / output cap / final action / file-info chunking) + input bytes; entries: stream, stream_mt (1-3 native threads), auto, alone, lzip, microlzma, raw (0-3 delta/BCJ + LZMA1/LZMA1EXT/LZMA2, preset dictionary, invalid chains), block, index, index_buffer_decode, file_info (virtual file, seeks serviced), "
+              "block_header_decode, stream_header/footer_decode, filter_flags_decode, properties_decode, vli_decode (single + multi call, vs the format rule), str_to_filters, str_list_filters/str_from_filters, stream/block/raw_buffer_decode. "
+              "Oracle: sanitizers/asserts; allocator balanced, no double/unknown free; every return value in the documented set of its function (never PROG_ERROR / internal codes, info codes only with their flag, MEMLIMIT only with a limit, SEEK_NEEDED only from file-info with seek_pos <= size); call bound; output cap reached => avail_out=0 calls must end in BUF_ERROR/STREAM_END/error within 3 idle calls; input unmodified, windows exact; documented post-conditions of failures; decoded index <= memlimit and self-consistent; lzma_stream_buffer_decode: truncated => DATA_ERROR, small output => BUF_ERROR. "
+              "Non-trivial: input got past the first header check of its entry point; distinct = hash(entry, bytes)."),
+        assumptions=BASE_ASSUME + ["LZMA_MEM_ERROR from the 256 MiB allocator cap / ASan allocation limit is environment (counted)",
+            "libFuzzer -timeout artifacts are noise unless they reproduce (deadlock / unbounded loop clause)",
+            "lzma_filter_flags_decode moving *in_pos on failure (filter.h says it does not) is counted as a note, not asserted",
+            "seed corpus corpus/C04 = output of VERIF_C04_MAKE_SEEDS=<dir> build/bin/t_c04 (191 cases from tests/files) + regression inputs"],
+    ),
     "C06": dict(
         engine="fuzz", level="exploration",
         technique="coverage-guided structured fuzzing (libFuzzer) with a metamorphic oracle: any slicing == one shot; encoder determinism differential",
@@ -45,6 +60,66 @@ PROPS = {
               "informational codes equal the one-shot run (bytes exempt for rejected input behind BCJ). Non-trivial: schedule really splits input into >=2 non-empty pieces or "
               "output into >=2 windows and the coder consumed more than its header; distinct = hash(input/config, schedule)."),
         assumptions=BASE_ASSUME + ["thread schedules of the threaded encoder are the OS's in this target (controlled schedules: C08 target)"],
+    ),
+    "C07": dict(
+        engine="fuzz", level="exploration",
+        technique="controlled-schedule property-based testing: liblzma's pthread calls are redirected to a scheduler (sched/vsched.cc) that serialises threads and takes every scheduling decision from the case bytes (libFuzzer generates/mutates/shrinks schedules together with files and settings); differential oracle = single-threaded decoder; deadlock/livelock detectors; plus the same cases natively under ThreadSanitizer",
+        level_text="Generated-input search over (multi-Block file, damage, threads, memory limits, timeout, flags, slicing, life-cycle events, thread schedule). Every synchronisation operation liblzma performs is a scheduling point owned by the harness, so any interleaving can be generated and replayed and lost wake-ups show up as detected deadlocks; schedules are sampled, not exhausted. Data races between plain accesses are the TSan build's job and it only sees the OS's schedules.",
+        level_note="Trusted: the scheduler model of mutex/condvar/timed-wait semantics (POSIX: any waiter may be woken, spurious wake-ups and early time-outs allowed); the single-threaded decoder as reference (itself judged by C03/C05/C06); virtual time (time passes only when nobody can run or when the schedule says so).",
+        targets=[dict(name="t_c07", variant="sched", extra_src=("sched/vsched.cc",), quick_runs=24000, quick_workers=8, thorough_runs=2000000, max_len=400, min_nontrivial_quick=2500, min_nontrivial_thorough=200000),
+                 dict(name="t_c07", variant="tsan", quick_runs=4000, quick_workers=4, thorough_runs=200000, max_len=300, min_nontrivial_quick=500, min_nontrivial_thorough=20000)],
+        rule=("case = 1-3 Streams x 1-12 Blocks (0..64 KiB each; Blocks with size fields from the threaded encoder or without from the single-threaded one; optional delta/BCJ; all checks; optional Stream Padding) x blind damage/truncation "
+              "x lzma_mt{threads 1-6, memlimit_threading 1..huge, memlimit_stop below need (then raised) or huge, timeout 0/1/300 (virtual), flags CONCATENATED/TELL_*/IGNORE_CHECK/FAIL_FAST} x slicing schedule x life-cycle (early lzma_end after call j, re-init on the same handle, get_progress between calls) "
+              "x scheduling strategy (mostly-stay random walk, eager switching, PCT-like priorities, run-until-blocked) x schedule bytes. Oracle: bytes and final status equal lzma_stream_decoder (behind BCJ on rejected input: status and length; FAIL_FAST: error whenever ST errors and bytes a prefix); no deadlock, no livelock, bounded calls, all threads joined by lzma_end, allocator balanced, progress monotone and <= totals, == totals at STREAM_END. "
+              "Non-trivial: >= 2 worker threads alive at some moment, or >= 1 worker alive with an error / early end; distinct = hash(file, settings, decision path actually taken, slicing)."),
+        assumptions=BASE_ASSUME + ["thread schedules are sampled: the number of interleavings is astronomically larger than what is explored",
+                                   "a serialising scheduler cannot see data races between two plain memory accesses without a synchronisation operation in between: covered only by the TSan-native target under OS scheduling",
+                                   "allocation requests above the 192 MiB cap make the case environment (dropped, counted)"],
+    ),
+    "C08": dict(
+        engine="fuzz", level="exploration",
+        technique="controlled-schedule property-based testing (sched/vsched.cc owns every pthread operation of liblzma; schedules come from the case bytes) of action sequences on the threaded encoder; oracles: independent .xz parser (Block boundaries, chains), prefix decode at every FULL_FLUSH, progress accounting, deadlock/livelock detectors; plus the same cases natively under ThreadSanitizer",
+        level_text="Generated-input search over (input, lzma_mt settings, RUN/FULL_FLUSH/FULL_BARRIER/filters_update/progress/FINISH sequences, output slicing, early end and re-initialisation, thread schedule). Any interleaving of synchronisation operations can be generated, replayed and shrunk; schedules are sampled, not exhausted.",
+        level_note="Trusted: scheduler model of POSIX mutex/condvar/timed-wait semantics with virtual time; harness/ref parser+decoder for the produced Stream; single-threaded liblzma decoder for the flush prefix test.",
+        targets=[dict(name="t_c08", variant="sched", extra_src=("sched/vsched.cc",), quick_runs=60000, quick_workers=8, thorough_runs=3000000, max_len=400, min_nontrivial_quick=2000, min_nontrivial_thorough=200000),
+                 dict(name="t_c08", variant="tsan", quick_runs=4000, quick_workers=4, thorough_runs=200000, max_len=300, min_nontrivial_quick=500, min_nontrivial_thorough=20000)],
+        rule=("case = input recipe (0..256 KiB, mostly < 32 KiB) x lzma_mt{threads 1-6, block_size 1000..65536, timeout 0/1/300 (virtual), preset 0 or explicit chain (LZMA2 with varied lc/lp/pb/mf, optional delta), check} x up to 15 ops "
+              "(feed n incl. 0 and exact multiples of block_size, FULL_FLUSH, FULL_BARRIER, lzma_filters_update to another chain, get_progress) + FINISH x output windows (0, 1..16, 64 KiB) x life-cycle (early lzma_end after call j, re-init with the same or another thread count and encode again) x strategy x schedule bytes. "
+              "Oracle: reference parser accepts exactly one Stream that decodes to the input; Block uncompressed sizes == cut points implied by block_size and every flush/barrier with pending input (no empty Block); at each FULL_FLUSH completion the output so far decodes (single-threaded decoder, LZMA_RUN only) to exactly the input so far; "
+              "FULL_BARRIER completes with all input consumed; lzma_filters_update accepted exactly between Blocks and the later Block Headers/LZMA2 props show the new chain; progress monotone, progress_in <= total_in, progress_out <= final size, both == totals at the end; no deadlock/livelock, every thread joined by lzma_end, allocator balanced. "
+              "Non-trivial: >= 2 Blocks with >= 2 worker threads alive, or an early end with a live worker; distinct = hash(recipe, settings, ops, decision path)."),
+        assumptions=BASE_ASSUME + ["thread schedules are sampled", "plain data races are only visible to the TSan-native target under OS scheduling"],
+    ),
+    "C11": dict(
+        engine="fuzz", level="exploration",
+        technique="model-based stateful fuzzing (libFuzzer): histories of legal and illegal lzma_code() calls on every public coder, judged call by call against a reference state machine written from api/lzma/base.h; guard-byte / exact-heap-block buffer instrumentation; end-to-end round trip / one-shot differential when a history reaches the end of the stream",
+        level_text="Generated-input search over (handle kind, workload, history of <= 64 steps + protocol-correct completion); every call is compared with the set of outcomes the documented protocol allows and with exact accounting of next/avail/total; sampled, not exhaustive. Right level because the quantifier (all call sequences on all handles) is unbounded while the model is tiny and exact.",
+        level_note="Trusted: the model's reading of base.h/container.h/filter.h/block.h/index.h (supported-action table, fatal vs non-fatal codes); where the documents leave the outcome open (state after a refused call, END + invalid arguments, reserved members, idle LZMA_OK of timed threaded coders, decoders given LZMA_FINISH early or mutated input, MicroLZMA without input) every documented continuation is accepted. Thread schedules are the OS's; a 60 s watchdog turns hangs of threaded coders into violations.",
+        targets=[dict(name="t_c11", quick_runs=40000, quick_workers=8, thorough_runs=800000, max_len=600, min_nontrivial_quick=8000, min_nontrivial_thorough=250000)],
+        rule=("case = handle kind (easy/stream/stream_mt/alone/raw/block/index/MicroLZMA encoder; stream/stream_mt/auto/alone/lzip/raw/block/index/file_info/MicroLZMA decoder, decoder flags drawn, ~1/7 of decoder workloads mutated) "
+              "x history: legal calls with drawn in/out pieces, flush/finish starts, supply-nothing, out-of-range or unsupported action, action or avail_in changed inside a flush/finish, NULL buffer with non-zero length, reserved member set, "
+              "calls before init / after lzma_end / after END / after a fatal error, lzma_end, re-init without lzma_end, application-modified totals, legal NULL+0 buffers; then completion to END. "
+              "Oracle: model NOT_INIT/RUN/IN_ACTION/END/ERROR => allowed return codes + post-state; refused calls change no member of lzma_stream; BUF_ERROR only on the second consecutive idle call, never two idle LZMA_OK, not fatal; "
+              "fatal code => every later call PROG_ERROR; per-call accounting; input and guard bytes untouched; at END encoders round-trip to the consumed input, decoders equal the one-shot output and total_in. "
+              "Non-trivial: >= 1 illegal step or >= 1 BUF_ERROR and >= 3 legal coding calls; distinct = hash(kind, workload, history)."),
+        assumptions=BASE_ASSUME + ["thread schedules of the threaded coders are the OS's in this target",
+                                   "allocation requests above the 96 MiB cap make the case environment (LZMA_MEM_ERROR counted, not judged)",
+                                   "reads outside the input window are only visible in the cases that use exactly sized heap blocks (ASan), writes also through guard bytes"],
+    ),
+    "C12": dict(
+        engine="fuzz", level="exploration",
+        technique="model-based stateful fuzzing (libFuzzer) of encoder action sequences: flush-point decodability checked with a fresh liblzma decoder, final stream checked with the liblzma decoder and the independent .xz parser (Block layout, Block Header filters, LZMA2 chunk properties) against a model of cut points and options in effect",
+        level_text="Generated-input search over (encoder, three filter chains, op sequence of feeds / SYNC_FLUSH / FULL_FLUSH / FULL_BARRIER / lzma_filters_update / FINISH, output slicing); each completed flush and the finished stream are judged against the model; sampled, not exhaustive.",
+        level_note="Trusted: liblzma's decoders for the flush-point check (themselves judged by C01/C03/C05/C06), ref/xzparse.h for the layout, the reading of filter.h for when an update must be accepted or refused. Open by design: updates at undocumented moments (either outcome, effect unmodelled if accepted inside a Block), SYNC_FLUSH on a non-flushable chain with nothing to flush, side effects of a refused update on lc/lp/pb (liblzma applies them before comparing Filter IDs), FULL_BARRIER on the threaded encoder only has to leave a decodable prefix.",
+        targets=[dict(name="t_c12", quick_runs=56000, quick_workers=8, thorough_runs=1200000, max_len=400, min_nontrivial_quick=4000, min_nontrivial_thorough=200000)],
+        rule=("case = encoder (stream, stream_mt with threads/block_size/timeout, raw, block) x chains (LZMA2 | delta+LZMA2 | BCJ+LZMA2 in any order as initial + two alternatives; LZMA1 for raw) x ops: feed(n) n in {0..3, < nice_len, <= 600, <= 8 KiB, 4-40 KiB > window}, "
+              "SYNC_FLUSH/FULL_FLUSH/FULL_BARRIER with or without new input, back-to-back, as first call, lzma_filters_update(new lc/lp/pb | chain with other IDs | 6 invalid chains), FINISH x 4 output slicings. "
+              "Oracle: completed flush => output so far decodes (LZMA_RUN only) to exactly the input so far and wants more; final stream round-trips (liblzma + ref parser); Blocks exactly at the flush offsets with new input (threaded: also every block_size), no empty Block; "
+              "SYNC_FLUSH on BCJ/LZMA1 chains with data => OPTIONS_ERROR and a decodable prefix, honoured by LZMA2 and delta+LZMA2, PROG_ERROR on the threaded encoder; update accepted at the documented moments, refused for invalid chains and changed IDs inside a Block/raw stream, "
+              "accepted chain visible in the next Block Header and accepted lc/lp/pb in every later LZMA2 chunk. Non-trivial: >= 1 completed flush with input before and after it and the stream finished; distinct = hash(encoder, config, ops, slicing)."),
+        assumptions=BASE_ASSUME + ["thread schedules of the threaded encoder are the OS's in this target",
+                                   "total input per case <= 160 KiB, threaded cases <= ~64 Blocks",
+                                   "allocation requests above the 256 MiB cap make the case environment"],
     ),
     "C13": dict(
         engine="fuzz+py", level="exploration",
@@ -92,6 +167,21 @@ PROPS = {
               "Non-trivial: the reference changed >= 1 byte; distinct = hash(filter, offset/distance, data, direction)."),
         assumptions=BASE_ASSUME + ["the 5.4.1 comparison needs /usr/lib/x86_64-linux-gnu/liblzma.so.5 (VERIF_SYSLZMA overrides; absence is counted, not an error) and cannot cover RISC-V",
                                    "no RISC-V golden file exists in tests/files; RISC-V is pinned by the reference written from the specification comment only"],
+    ),
+    "C16": dict(
+        engine="fuzz+py", level="exploration",
+        technique="by-construction synthesis of .lzma / .lz / .xz files (headers and footers written by the harness, payloads from liblzma's raw encoders) judged by independent format models (ref/containers.h, ref/lzip.h, ref/xzparse.h) + differential auto-vs-specific decoder; Hypothesis differential of xz/xzdec/lzmadec/lzmainfo against a direct library decode (libdec)",
+        level_text="Generated-input search: every header/footer field family of .lzma and .lz (incl. all 256 dictionary size bytes, versions 0/1/2+, sizes around 2^38, wrong CRC/data size/member size), 1-3 members or Streams, trailing data with 0-4 magic bytes, Stream Padding 0-13, x decoder x flags x RUN-only/FINISH x slicing at magic and member boundaries; each result compared with the model (accept exactly, same bytes, same stop position, FORMAT_ERROR where documented). Sampled.",
+        level_note="Trusted: ref::lzma1_decode/alone_decode/lzip_decode/xz_decode (no liblzma code; validated against tests/files); the plausibility test is ref::alone_header_plausible. Only the error class of rejected files is compared (exact code only for FORMAT_ERROR and for .lzma+trailing under auto|CONCATENATED = DATA_ERROR). For .lz members + trailing data under CONCATENATED with LZMA_RUN only, both STREAM_END and BUF_ERROR are accepted (lzip doc vs flag doc). CLI suite: the oracle is liblzma itself through libdec with the tool's documented flags.",
+        targets=[dict(name="t_c16", quick_runs=120000, quick_workers=8, thorough_runs=2000000, max_len=300, min_nontrivial_quick=12000, min_nontrivial_thorough=150000)],
+        suites=[dict(module="c16_cli", min_nontrivial_quick=500, min_nontrivial_thorough=5000)],
+        helpers=[dict(name="libdec")],
+        rule=("fuzz: case = file kind (.lzma: props/dict/size field variants, marker or not, trailing; .lz: 1-3 members x version x dict byte x footer variant, trailing with 0-4 magic bytes; .xz: 1-3 Streams x check (also unsupported IDs) x padding 0-13 x garbage; garbage) x truncation/bit flip x decoder (alone, lzip, stream, stream_mt, auto, also cross-format) x flags x final action x slicing. "
+              "Oracle: model accepts <=> STREAM_END with equal bytes and total_in; unrecognised => LZMA_FORMAT_ERROR; CONCATENATED without FINISH never ends; .lzma+bytes under auto|CONCATENATED => DATA_ERROR; informational codes as documented; auto == specific decoder on the same schedule. Non-trivial: file passes the header stage of the xz, lz or lzma model; distinct = hash(file, flags, action). "
+              "py: scenario = synthesised file (xz --format=lzma output or tests/files .lzma/.lz with header/footer rewritten in Python, xz Streams with padding) x 1-4 runs of xz -dc --format=auto|lzma|lzip|xz [--single-stream], lzmadec, xzdec, lzmainfo; tool exit 0 + identical bytes <=> libdec STREAM_END (lzmadec: and nothing after the stream); lzmainfo output == header fields. Non-trivial: file has a valid xz/lz/lzma header; distinct = hash(scenario)."),
+        assumptions=BASE_ASSUME + ["LZMA_MEM_ERROR from the 600 MiB allocator cap (dictionary sizes >= 1 GiB, UINT32_MAX) is environment: such headers are only checked up to the header stage",
+            "the cli build has the CMake default feature set (lzip decoder enabled) and libdec links liblzma of the same working tree",
+            "bytes and input position of rejected files are not compared (C05/C06 cover them)"],
     ),
     "C17": dict(
         engine="py", level="fault_enumeration",
